@@ -137,9 +137,12 @@ pub struct KindInst {
     pub pivots: Vec<i64>,
     pub two_inputs: bool,
     pub slope_input: bool,
+    /// `Some("f64" | "f32")`: inputs are float bit patterns
+    pub float: Option<&'static str>,
 }
 
-pub const KINDS: [&str; 24] = [
+pub const KINDS: [&str; 28] = [
+    "hampel", "sg", "daub_analyze", "daub_synth",
     "median", "mean", "max", "min", "bounds", "convolve", "convolve_norm", "delay", "differentiate",
     "integrate", "kalman", "alphabeta", "ema", "emedian", "meanvar", "emeanvar", "threshold",
     "schmitt", "debounce", "slopes", "peaks", "peaks_slopes", "cache", "cache2",
@@ -149,7 +152,7 @@ pub fn random_kind(rng: &mut Rng, kind: &'static str) -> KindInst {
     let n = *rng.pick(&[1usize, 2, 3, 4, 5]);
     let outs2 = || "out=-7,11".to_string();
     let outs3 = || "out=21,22,23".to_string();
-    let mut k = KindInst { params: String::new(), kind, width: n, pivots: vec![], two_inputs: false, slope_input: false };
+    let mut k = KindInst { params: String::new(), kind, width: n, pivots: vec![], two_inputs: false, slope_input: false, float: None };
     k.params = match kind {
         "median" | "mean" | "max" | "min" | "bounds" | "meanvar" => format!("{} N={}", kind, n),
         "delay" => {
@@ -162,6 +165,27 @@ pub fn random_kind(rng: &mut Rng, kind: &'static str) -> KindInst {
             format!("{} c={}", kind, csv(&c))
         }
         "differentiate" | "integrate" => kind.to_string(),
+        "hampel" | "sg" | "daub_analyze" | "daub_synth" => {
+            let ty = *rng.pick(&["f64", "f32"]);
+            k.float = Some(ty);
+            let bits = |x: f64| if ty == "f64" { format!("x{:016x}", x.to_bits()) } else { format!("y{:08x}", (x as f32).to_bits()) };
+            match kind {
+                "hampel" => format!("hampel N={} thr={} T={}", n, bits(*rng.pick(&[0.0, 0.5, 1.0, 2.0, 3.0])), ty),
+                "sg" => {
+                    k.width = rng.range(1, 13) as usize;
+                    format!("sg W={} T={}", k.width, ty)
+                }
+                "daub_analyze" => {
+                    k.width = 2 * rng.range(1, 10) as usize;
+                    format!("daub_analyze O={} T={}", k.width, ty)
+                }
+                _ => {
+                    k.width = 2 * rng.range(1, 10) as usize;
+                    k.two_inputs = true;
+                    format!("daub_synth O={} T={}", k.width, ty)
+                }
+            }
+        }
         "kalman" => {
             if rng.chance(1, 3) {
                 format!("kalman r={} q={} a=1 b=0 c=1", unit_rat(rng), rat_pos(rng))
@@ -214,6 +238,17 @@ pub fn random_kind(rng: &mut Rng, kind: &'static str) -> KindInst {
 }
 
 pub fn random_input(rng: &mut Rng, k: &KindInst) -> String {
+    if let Some(ty) = k.float {
+        let mut one = |rng: &mut Rng| {
+            let x = match rng.below(3) {
+                0 => rng.range(-24, 24) as f64 / 8.0,
+                1 => rng.range(-3, 3) as f64,
+                _ => (rng.range(-100_000, 100_000) as f64) / 1000.0,
+            };
+            if ty == "f64" { format!("x{:016x}", x.to_bits()) } else { format!("y{:08x}", (x as f32).to_bits()) }
+        };
+        return if k.two_inputs { format!("{} {}", one(rng), one(rng)) } else { one(rng) };
+    }
     if k.slope_input {
         return rng.range(0, 2).to_string();
     }
